@@ -6,11 +6,13 @@ CONSTANTS
   XtModes = {"cell", "text", "none"}
   IoPx = {TRUE, FALSE}
   Ops = {"cell"}
+  Faults = {}
   Variant = "code"
 INVARIANT TypeOK
 INVARIANT CellFresh
 INVARIANT RatioFresh
 INVARIANT FixedSnapshot
 INVARIANT MemoFresh
+INVARIANT FaultFresh
 INVARIANT BodyOnce
 CHECK_DEADLOCK FALSE
